@@ -1862,6 +1862,56 @@ def cmd_faults_case(draw):
 
 
 
+# ================================================================ leg acr-led
+# The other frames the ACR122 driver writes: the LED / buzzer pseudo APDUs
+# (FF 00 40 <led state> 04 <T1 T2 repetitions buzzer>) for every duration an
+# application may ask for.
+def run_acr_led(case, ctx):
+    ctx.set_class("acr122/led")
+    cs = chipset_for("acr122")
+    link = ScriptLink([ref.ccid_build_rsp(b"\x90\x02")] * 2)
+    cs.transport = link
+    try:
+        if case["what"] == "default":
+            cs.set_buzzer_and_led_to_default()
+        elif case["ms"] is None:
+            cs.set_buzzer_and_led_to_active()
+        else:
+            cs.set_buzzer_and_led_to_active(case["ms"])
+    except Exception as e:
+        raise unexpected(e, detail="acr122 LED command %r" % (case,))
+    if len(link.writes) != 1:
+        raise Violation("cmd-write-count", "%r: %d writes"
+                        % (case, len(link.writes)))
+    w = link.writes[0]
+    try:
+        apdu = ref.ccid_parse_host(w)
+        if len(apdu) < 5 or apdu[:3] != b"\xff\x00\x40":
+            raise ref.RefReject("apdu-header", apdu[:5].hex())
+        if apdu[4] != 4 or len(apdu) != 5 + apdu[4]:
+            raise ref.RefReject("apdu-lc", "Lc %d, %d data bytes"
+                                % (apdu[4], len(apdu) - 5))
+    except ref.RefReject as r:
+        raise Violation("cmd-frame-malformed:" + r.reason, "%r wrote %s: %s %s"
+                        % (case, w.hex(), r.reason, r.detail))
+    if case["what"] == "active" and (case["ms"] or 0) >= 25600:
+        ctx.nontrivial()
+    if case["what"] == "active" and case["ms"] is not None:
+        ctx.label("T1:%02x" % apdu[5])
+
+
+def enum_acr_led(tier, seed):
+    yield {"what": "default", "ms": None}
+    yield {"what": "active", "ms": None}
+    top = 30000 if tier == "quick" else 70000
+    for ms in range(0, top, 50 if tier == "quick" else 1):
+        yield {"what": "active", "ms": ms}
+    for ms in (25599, 25600, 25601, 409500, 409600, 409700, 6553600,
+               10 ** 7, 10 ** 9):
+        yield {"what": "active", "ms": ms}
+
+
+
 LEGS = [
     Leg("anchors", run=run_anchor, enum=enum_anchors, exhaustive=True,
         rule="literal frames of tests/base_clf_pn53x.py, test_clf_acr122.py, "
@@ -1876,6 +1926,16 @@ LEGS = [
              "content (+ all-00/all-FF content at every 7th and at boundary "
              "lengths); non-trivial = length within 2 of the 254/255 format "
              "switch or of the maximum."),
+    Leg("acr-led", run=run_acr_led, enum=enum_acr_led, exhaustive=True,
+        shards_quick=2, shards_thorough=8,
+        rule="ACR122 LED / buzzer pseudo APDUs: the default state, the "
+             "active state without argument and with every duration 0.."
+             "30 s in steps of 50 ms (thorough: 0..70 s, every ms) plus "
+             "25.6 s, 409.6 s, 6553.6 s, 1e7 and 1e9 ms; the write is one "
+             "well-formed CCID message carrying FF 00 40 xx 04 and exactly "
+             "four data bytes (which duration byte the driver chooses is "
+             "not judged).  "
+             "Non-trivial = duration at or above the 25.6 s clamp."),
     Leg("cmd-faults", run=run_cmd_faults,
         gen=lambda tier: cmd_faults_case(), quick=1500, thorough=30000,
         shards_quick=8, shards_thorough=16, nt_floor=0.2,
